@@ -340,6 +340,35 @@ def evalValue (cfg : ECfg) (al : List (Str × Val)) (env : Env) (tok : Tok) (esc
   xSetToken tok
   evalT cfg al env 64 e esc dflt
 
+/-- `RE_NAME`: `^[a-zA-Z_][-a-zA-Z0-9_]*$` (Python's `$` also matches before one trailing newline) -/
+def isSimpleName (s : Str) : Bool :=
+  let s := if s.getLast? == some 10 then s.dropLast else s
+  match s with
+  | [] => false
+  | c :: rest =>
+    ((65 ≤ c && c ≤ 90) || (97 ≤ c && c ≤ 122) || c == 95) &&
+    rest.all (fun c => (65 ≤ c && c ≤ 90) || (97 ≤ c && c ≤ 122) || (48 ≤ c && c ≤ 57) || c == 95 || c == 45)
+
+/-- implicit translation of an interpolated text whose expressions are all simple names: the message id is the text
+with `${name}` placeholders, the mapping holds the converted values (`Interpolator.__call__`, `translate` branch) -/
+def evalPartsTranslated (cfg : ECfg) (al : List (Str × Val)) (env : Env) : List IPart → Esc → Option Str → Bool → XM (Str × List (Str × Str))
+  | [], _, _, _ => pure ([], [])
+  | p :: rest, esc, dflt, lf => do
+    let (a, m) ← match p with
+      | .lit s => pure (s, ([] : List (Str × Str)))
+      | .expr e tok text => do
+        xSetToken tok
+        let v ← evalT cfg al env 64 e esc dflt
+        let t ← xLiftR (convPart cfg esc dflt lf v)
+        -- a value of `None` stays in the mapping; the translation function sees `str(None)`
+        pure (lit "${" ++ text ++ lit "}", [(text, t.getD (lit "None"))])
+    let (b, m') ← evalPartsTranslated cfg al env rest esc dflt lf
+    pure (a ++ b, m ++ m')
+
+/-- a dictionary display with repeated keys keeps the first position and the last value -/
+def dedupMapping (m : List (Str × Str)) : List (Str × Str) :=
+  m.foldl (fun acc (k, v) => if acc.any (·.1 == k) then acc.map (fun (k', v') => if k' == k then (k', v) else (k', v')) else acc ++ [(k, v)]) []
+
 def getCached (env : Env) (id : Nat) : XM Val :=
   match env.topFrame.cache.find? (·.1 == id) with
   | some (_, v) => pure v
@@ -404,7 +433,6 @@ def evalEN (cfg : ECfg) (al : List (Str × Val)) (env : Env) : Nat → EN → XM
         let b ← xLiftR (Val.truthy cfg.tab v)
         pure (if b then .str s else .none)
     | .interp tok esc dflt literalFalse required translation => do
-      if translation then xUnsupported "implicit translation of interpolated text" else
       match compileInterp cfg.tc 64 tok required true with
       | .error (.template cls msg etok) => do
         xSetTokenRaw etok.pos etok.str.length
@@ -413,7 +441,20 @@ def evalEN (cfg : ECfg) (al : List (Str × Val)) (env : Env) : Nat → EN → XM
       | .error (.crash cls) => xUnsupported ("compile crash " ++ cls)
       | .ok parts => do
         xSetToken tok
-        let r ← evalParts cfg al env 64 parts esc dflt literalFalse
+        -- implicit translation: only when every `${…}` is a simple name (a lone expression is never translated)
+        let allNames := parts.all (fun p => match p with | .lit _ => true | .expr _ _ text => isSimpleName text)
+        -- an empty `${}` is a literal part in the model but an expression for the real Interpolator
+        if translation && parts.any (fun p => match p with | .lit s => (List.range (s.length + 1)).any (fun i => (lit "${}").isPrefixOf (s.drop i)) | _ => false) then
+          xUnsupported "implicit translation of a text with an empty ${}" else
+        let r : Option Str ← (match translation && allNames, parts with
+          | true, [.lit s] => do
+            let t ← callTranslate cfg env s none none
+            pure (some t)
+          | true, _ :: _ :: _ => do
+            let (msgid, mapping) ← evalPartsTranslated cfg al env parts esc dflt literalFalse
+            let t ← callTranslate cfg env msgid (some (dedupMapping mapping)) none
+            pure (some t)
+          | _, _ => evalParts cfg al env 64 parts esc dflt literalFalse)
         let v : Val := match r with | some s => .str s | none => .none
         -- emit_convert on the joined result is the identity on str / None
         if literalFalse then pure v else do
